@@ -154,6 +154,18 @@ def run_execerror(ctx):
     return res
 
 
+def _always_calls(lib, fid, alts, depth):
+    hb = lib.body(fid)
+    if hb is None or depth > 2 or "{closure" in fid:
+        return False
+    g = {c.bb for c in hb.calls if c.callee in alts or c.path in alts}
+    g |= {c.bb for c in hb.calls if c.callee not in alts and c.callee != fid and _always_calls(lib, c.callee, alts, depth + 1)}
+    if not g:
+        return False
+    reach = hb.reachable(0, avoid=g)
+    return not any(r in reach for r in hb.return_blocks())
+
+
 def run_mustcall(ctx):
     res = RuleResult("R-MUSTCALL", "every path of F from entry to a success value passes through a call to the named check "
                                    "(must-pass-through)")
@@ -171,6 +183,8 @@ def run_mustcall(ctx):
         if not res.anchor(b is not None, fid):
             continue
         gates = {c.bb for c in b.calls if c.callee in alts or c.path in alts}
+        # a crate-local wrapper that makes the call on every path to its return is as good as the call itself
+        gates |= {c.bb for c in b.calls if c.callee not in alts and _always_calls(lib, c.callee, alts, 0)}
         if len(row) > 1 and row[1] == "calls" and not gates:
             # presence obligation: the call may live in a closure or an extracted helper of the function
             if any(c.callee in alts or c.path in alts for hb in own.members(fid) for c in hb.calls):
